@@ -181,6 +181,14 @@ def run_case(case, tier):
                 bad = f"TraversedPartialPath at {p}: nibbles_traversed + untraversed_tail != path"
             if not below and bad is None:
                 bad = f"partial traversal at {p} although no stored key starts with it"
+            # the simulated node is the enclosing leaf / extension with its path trimmed: same second item (value / child
+            # reference) - a walker continues from simulated_node.raw
+            try:
+                if bad is None and node[4] in (1, 2) and sim[3][1] != node[3][1]:
+                    bad = (f"TraversedPartialPath at {p}: the simulated node's raw body does not carry the enclosing node's "
+                           f"{'value' if node[4] == 1 else 'child reference'}")
+            except (IndexError, TypeError):
+                pass
             spec_expected.append([1, ann4(sim), reached, tail, ann4(node)])
         elif isinstance(o, Exc):
             if bad is None:
